@@ -32,6 +32,8 @@ type c05Scenario struct {
 	// optional misbehaviour of the (first) client process: exit0 exit1 closeout garbage unknown, once k answers were emitted
 	ClientFault   string `json:"client_fault,omitempty"`
 	ClientFaultAt int    `json:"client_fault_at,omitempty"`
+	// CaseOrder: the order of the cases inside each server batch (hook verifCaseOrder): "" by name, rev, rot
+	CaseOrder string `json:"case_order,omitempty"`
 	// ServerHost / EchoCert: what every server reports about itself (see c11Scenario.Host); "" = varies by start index
 	ServerHost string `json:"server_host,omitempty"`
 	EchoCert   bool   `json:"echo_cert,omitempty"`
@@ -296,7 +298,12 @@ func c05Body(x *gate.Exec, sc c05Scenario) (*c05Obs, func()) {
 			return fakeScript{Fault: "none", SyncStdin: sc.SyncStdin}
 		}
 	}
-	remove := w.install()
+	removeHook := w.install()
+	verifCaseOrder = sc.CaseOrder
+	remove := func() {
+		removeHook()
+		verifCaseOrder = ""
+	}
 	var mu sync.Mutex
 	if x != nil && !gateNoCache {
 		x.KeyFn = func() string {
@@ -549,6 +556,16 @@ func c05Scenarios(thorough bool) []c05Scenario {
 								out = append(out, c05Scenario{Cfg: cfg, Suites: su, Mode: mode, MaxServers: ms, FailStart: -1, ClientFault: cf, ClientFaultAt: k})
 							}
 						}
+					}
+				}
+				// the cases of a batch in another order than by name
+				if su != "one" && cfg == "A2" {
+					for _, o := range []string{"rev", "rot"} {
+						ms := 1
+						if mode == "both" {
+							ms = 2
+						}
+						out = append(out, c05Scenario{Cfg: cfg, Suites: su, Mode: mode, MaxServers: ms, FailStart: -1, CaseOrder: o})
 					}
 				}
 				// the client's input is a synchronous pipe: a sender can be parked inside its write (holding the
